@@ -1,8 +1,10 @@
 """C07 -- pressure-dependent demand follows the documented pressure-demand curve.
 
 Tie (T): `Gen/RowsC07.lean` is regenerated on every run (harness/translate/rows_c07c08.py): the `m.pdd[j]` rows of a zoo
-         network (all 8 own/None override combinations + an isolated junction), `cubic_spline` and the spline end data of
-         `pdd_poly_coeffs_param.build` by symbolic execution, `pdd_constants`.  `Props/C07.lean` is re-checked against it.
+         network (all 8 own/None override combinations, an isolated junction, one with Preq-Pmin < 2*delta), `cubic_spline`,
+         `pdd_poly_coeffs_param.build` / `pnom_param.build` as decision trees (symbolic execution, every comparison outcome
+         explored), `pdd_constants`, the ModelUpdater registrations and the attributes every Definition reads.
+         `Props/C07.lean` is re-checked against it; rows are compared semantically (Model/RowsNorm.lean, sound).
 Tie (C): the REAL `m.pdd[j]` residual (`con.evaluate()`, no solve) for random (Pmin, Preq, e, D, overrides) over pressures
          from far below Pmin to far above Preq incl. the joints, against the Lean driver evaluating the parametric row and
          the curve with coefficients computed by the generated spline code (Float).
@@ -58,7 +60,7 @@ def build_case(wntr, glob, specs):
     h.demand_model = "PDD"
     h.minimum_pressure, h.required_pressure, h.pressure_exponent = glob
     m, upd = H.create_hydraulic_model(wn)
-    return wn, m
+    return wn, m, upd
 
 
 def eff(own, glob):
@@ -89,35 +91,45 @@ class C07(Check):
     prop_modules = ["WntrModel.Props.C07"]
     manifest = dict(
         category="proof",
-        text="Lean theorems over definitions regenerated from the current source on every run (the m.pdd[j] rows built by "
-        "create_hydraulic_model for a zoo with all 8 own/None override combinations, cubic_spline and the spline end data of "
-        "pdd_poly_coeffs_param by symbolic execution, pdd_constants): the rows are the parametric 5-branch row with the exponent "
-        "and Pmin/Preq chosen by the override rule and mention no other junction's leaves; for ALL real pressures, Pmin, Preq with "
-        "Preq-Pmin >= 2*delta, exponents in (0,1], D >= 0: branch values (slope*(p-Pmin) below, ((p-Pmin)/(Preq-Pmin))^e between "
-        "the bands, 1+slope*(p-Preq) above), equality of neighbouring branches at the four joints, and monotonicity over the whole "
-        "line. The real residuals are compared with the Lean driver and the curve oracle runs on the implementation and on real "
-        "PDD simulations.",
+        text="Lean theorems over definitions regenerated from the current source on every run: the m.pdd[j] rows built by "
+        "create_hydraulic_model for a zoo (all 8 own/None override combinations, an isolated junction, a junction with "
+        "Preq-Pmin < 2*delta), compared SEMANTICALLY with the parametric 5-branch row (polynomial normal form over atoms, atoms and "
+        "branch conditions compared recursively, sound over the reals: rowSem_sound) -- a re-ordered row still checks, a sign, a "
+        "constant, a bound, a leaf does not (rowSem_is_sensitive); cubic_spline, pdd_poly_coeffs_param.build and pnom_param.build by "
+        "symbolic execution with every outcome of every comparison explored (decision trees pddPolyBuild, pnomBuild: refusals "
+        "included); pdd_constants; the ModelUpdater registrations of the zoo and the node attributes each Definition's build "
+        "READS (recorded at run time). Proved for ALL real pressures, every Pmin < Preq, exponent in (0,1], D >= 0, with the band "
+        "width min(delta,(Preq-Pmin)/2) the repaired build stores (pddPolyBuild_spec): branch values, equality of neighbouring "
+        "branches at the four joints, 0 <= delivered <= D, monotone over the whole line (pdd_full_statement, no band hypothesis); "
+        "every generated row evaluates to demand - D*fraction at every point (gen_rows_eval); per-junction override of row, "
+        "parameters and coefficients; every attribute a PDD Definition reads is registered for it (pressure_exponent included) and "
+        "then the model update rebuilds it from the current values (updateDef_current). Real residuals, band widths, coefficients "
+        "and refusals are compared with the Lean driver; the curve oracle runs on the implementation and on real PDD simulations "
+        "(pressures landed on Pmin / Preq / band edges / inside both bands, WNTR's default Preq 0.07 m, parameter controls mid-run).",
         design_ref="DESIGN.md §5 C07",
-        note="modelled, not verified: real-number semantics of the row (pow = Real.rpow; IEEE rounding is only exercised by the "
-        "correspondence, tolerance 1e-7 of D for continuity/monotonicity because the shipped cubic is evaluated in the monomial "
-        "basis at absolute pressure); continuity is stated as equality of neighbouring branches at the joints, not as a topological "
-        "`Continuous`; monotonicity needs slope*(Preq-Pmin) <= 3e (true for slope=1e-11 unless Preq-Pmin > 3e11*e m). The statement "
-        "for overlapping bands (Preq-Pmin < 2*0.05 m) is FALSE of the code (Lean counterexample, known finding). Newton solve and "
-        "result storing are covered by the simulation oracle only.",
-        technique="Lean 4 proof over translator-regenerated constraint rows and spline code + differential run of real residuals against the Lean driver",
+        note="the model follows the REPAIRED code (fixes/C07-1-pressure-exponent-updater.patch, fixes/C07-2-pdd-band-overlap.patch); on the "
+        "unrepaired tree the check reports pdd-band-overlap and pdd-param-control-ignored:pressure_exponent with replays. Modelled, "
+        "not verified: real-number semantics of the row (pow = Real.rpow; IEEE rounding only exercised by the correspondence, "
+        "tolerance 1e-7 of D plus the forward error bound 8*eps*sum|coeff||x|^k of the monomial-basis cubic for continuity / "
+        "monotonicity); continuity is stated as equality of neighbouring branches at the joints; monotonicity needs "
+        "slope*(Preq-Pmin) <= 3e (true for slope=1e-11 unless Preq-Pmin > 3e11*e m); the update model (updateDef) is one model "
+        "update for one Definition of one node, the change tracker is C02's. Newton solve and result storing are covered by the "
+        "simulation oracle only.",
+        technique="Lean 4 proof over translator-regenerated constraint rows (semantic normaliser with soundness proof), path-explored symbolic execution of the parameter builds, generated updater registrations + differential run of real residuals and real PDD simulations against the Lean driver",
     )
     rule = (
         "obligations: theorems of Props/C07.lean. correspondence cases: (override pattern, Pmin, Preq, e, D, elevation, pressure) "
-        "residual evaluations of the real m.pdd[j] vs the Lean row; distinct = distinct (override pattern, regime of p, e class); "
+        "residual evaluations of the real m.pdd[j] vs the Lean row; refused builds vs the generated build model; reported (pressure, "
+        "demand) points of real PDD runs; distinct = distinct (override pattern, regime of p, e class, band class); "
         "non-trivial = D != 0 or p inside a smoothing band / at a joint"
     )
     trusted_base = [
-        "translator harness/translate/rows_c07c08.py (runtime reflection of aml expressions via amldump, symbolic execution of cubic_spline and pdd_poly_coeffs_param.build)",
+        "translator harness/translate/rows_c07c08.py (runtime reflection of aml expressions via amldump, path-exploring symbolic execution of cubic_spline, pdd_poly_coeffs_param.build, pnom_param.build; ModelUpdater.update_functions; attribute reads recorded through a recording subclass)",
         "Real.rpow as the meaning of aml `**` (agrees with C pow on natural exponents and on positive bases)",
         "IEEE-754 rounding not modelled (differential run only)",
     ]
     assumptions = [
-        "Preq - Pmin >= 2*pdd_smoothing_delta (bands do not overlap); otherwise see known finding pdd-band-overlap",
+        "Pmin < Preq and Preq > pdd_smoothing_delta (everything else is refused by the build: pddCode_eq)",
         "pdd_slope*(Preq-Pmin) <= 3*exponent for the monotonicity theorem",
     ]
 
@@ -157,6 +169,26 @@ class C07(Check):
             cases.append({"glob": gl, "specs": specs})
         return cases
 
+    def _change_cases(self, ctx, n):
+        """a valid case, then ONE junction's minimum_pressure / required_pressure / pressure_exponent is changed the way a control
+        does it (attribute write + ModelUpdater.update): the row, the parameters and the cubics must be those of the new value"""
+        rng = ctx.rng
+        out = []
+        for case in self._gen_cases(ctx, n):
+            k = rng.randrange(len(case["specs"]))
+            pmin, pnom, e = eff(case["specs"][k]["own"], case["glob"])
+            attr = rng.choice(["minimum_pressure", "required_pressure", "pressure_exponent"])
+            if attr == "minimum_pressure":
+                val = pnom - rng.choice([0.2, 1.0, 0.11, rng.uniform(0.12, max(0.13, pnom - pmin + 3))])
+            elif attr == "required_pressure":
+                val = max(pmin, 0.0) + rng.choice([0.11, 0.5, rng.uniform(0.2, 40.0), 0.07])
+            else:
+                val = rng.choice([1.0, 0.5, 0.8, 0.3, round(rng.uniform(0.05, 1.0), 3)])
+            if case["specs"][k]["D"] == 0:
+                case["specs"][k]["D"] = 0.01
+            out.append(dict(case, change={"node": k, "attr": attr, "value": val}))
+        return out
+
     def _malformed_cases(self, ctx, n):
         """parameter sets outside the statement (Preq <= Pmin, Preq <= smoothing delta): the build must refuse them exactly
         when the generated pnomBuild / pddPolyBuild refuse (no oracle, correspondence only)"""
@@ -183,21 +215,33 @@ class C07(Check):
         """returns (records, lines) -- one record per junction with impl residual sweep"""
         rng = ctx.rng
         delta = float(self.delta)
+        chg = case.get("change")
         try:
-            wn, m = build_case(wntr, case["glob"], case["specs"])
-        except Exception as e:
+            wn, m, upd = build_case(wntr, case["glob"], case["specs"])
+            if chg is not None:
+                # what a control does during a run: write the attribute, then ModelUpdater.update for (node, attribute)
+                node = wn.get_node("J%d" % chg["node"])
+                setattr(node, chg["attr"], chg["value"])
+                upd.update(m, wn, node, chg["attr"])
+                i = ("minimum_pressure", "required_pressure", "pressure_exponent").index(chg["attr"])
+                specs = [dict(s_) for s_ in case["specs"]]
+                own = list(specs[chg["node"]]["own"])
+                own[i] = chg["value"]
+                specs[chg["node"]]["own"] = tuple(own)
+                case = dict(case, specs=specs)
+        except Exception as err:
             # a refused build: the Lean build model must refuse at least one junction's parameters, too
             ls = []
             for k, s in enumerate(case["specs"]):
                 pmin, pnom, e = eff(s["own"], case["glob"])
                 ls.append("pddcurve %s %s %s %s" % (fbits(pmin), fbits(pnom), fbits(e), fbits(pmin)))
-            return [{"error": "%s: %s" % (type(e).__name__, e), "etype": type(e).__name__, "nlines": len(ls), "case": case}], ls
+            return [{"error": "%s: %s" % (type(err).__name__, err), "etype": type(err).__name__, "nlines": len(ls), "case": case}], ls
         recs, lines = [], []
         for k, s in enumerate(case["specs"]):
             nm = "J%d" % k
             pmin, pnom, e = eff(s["own"], case["glob"])
             rec = {"node": nm, "glob": case["glob"], "own": s["own"], "D": s["D"], "elev": s["elev"], "pmin": pmin, "pnom": pnom, "e": e,
-                   "pts": [], "narrow": (pnom - pmin) < 2 * delta}
+                   "pts": [], "narrow": (pnom - pmin) < 2 * delta, "change": chg if (chg is not None and chg["node"] == k) else None}
             par = {"pmin": m.pmin[nm].value, "pnom": m.pnom[nm].value, "elev": m.elevation[nm].value, "D": m.expected_demand[nm].value}
             # the junction's band width: a parameter of the (repaired) model; the unrepaired code bakes the constant in
             par["delta"] = m.pdd_delta[nm].value if hasattr(m, "pdd_delta") and nm in m.pdd_delta else delta
@@ -230,6 +274,9 @@ class C07(Check):
         cls = "narrow" if rec["narrow"] else "main"
         pat = "".join("o" if o is not None else "g" for o in rec["own"])
         replay = {k: rec[k] for k in ("glob", "own", "D", "elev", "pmin", "pnom", "e")}
+        if rec.get("change"):
+            replay["change"] = rec["change"]
+            ctx.count("updated_through_ModelUpdater:" + rec["change"]["attr"])
         # parameter values follow the override rule
         if rec["par"]["pmin"] != pmin or rec["par"]["pnom"] != pnom:
             failures.append(Failure("pdd-override-%s" % pat, "m.pmin/m.pnom do not follow the per-junction override rule: %r vs expected (%r, %r)" % (rec["par"], pmin, pnom),
@@ -276,10 +323,14 @@ class C07(Check):
                     failures.append(Failure("pdd-curve-zero-demand-%s" % cls, "requested demand 0 but delivered %r at p=%r" % (dval - r, pp), dict(replay, p=pp, observed=dval - r)))
                     break
             return
-        # the shipped cubics are evaluated in the monomial basis at the absolute pressure: their rounding error grows like
-        # eps * |a| * x^3 with a ~ (1/R)/w^2 (w the band width): 1e-7 of D for ordinary parameters, more for very narrow ranges
+        # the shipped cubics are evaluated in the monomial basis at the absolute pressure: forward error bound of that
+        # evaluation, 8 eps * sum |coefficient| |x|^k (1e-7 of D is ample for ordinary parameters; narrow ranges at high
+        # pressures need the bound)
         xm = max(abs(pmin), abs(pnom), 1.0)
-        tol = 1e-7 + 1.8e-15 * (1.0 / R) * xm ** 3 / (delta * delta)
+        co = rec["co"]
+        cond = 1.8e-15 * max(abs(co[0]) * xm ** 3 + abs(co[1]) * xm ** 2 + abs(co[2]) * xm + abs(co[3]),
+                             abs(co[4]) * xm ** 3 + abs(co[5]) * xm ** 2 + abs(co[6]) * xm + abs(co[7]))
+        tol = 1e-7 + cond
         what = None
         # branch values
         for (pp, f, fl, dval, r) in fr:
@@ -321,7 +372,7 @@ class C07(Check):
         # Lean curve (generated spline code, Float) vs implementation
         if what is None:
             for (pp, f, fl, dval, r) in fr:
-                if abs(f - fl) > 1e-9 * max(1.0, abs(f)):
+                if abs(f - fl) > 1e-9 * max(1.0, abs(f)) + cond:
                     broken.append(Broken("correspondence", "delivered fraction vs Lean pddFrac with generated coefficients",
                                          "p=%r impl=%r lean=%r %s" % (pp, f, fl, json.dumps(replay))))
                     break
@@ -329,7 +380,7 @@ class C07(Check):
             kind = what[0]
             failures.append(
                 Failure(
-                    ("pdd-curve-%s" % kind) if cls == "main" else "pdd-band-overlap",
+                    ("pdd-param-control-ignored:" + rec["change"]["attr"]) if rec.get("change") else ("pdd-curve-%s" % kind) if cls == "main" else "pdd-band-overlap",
                     "delivered-demand curve of m.pdd[%s] violates '%s': Pmin=%r Preq=%r exponent=%r D=%r at %r: observed %r expected %r"
                     % (rec["node"], kind, pmin, pnom, e, D, what[1], what[2], what[3]),
                     dict(replay, kind=kind, at=what[1], observed=what[2], expected=what[3], cls=cls),
@@ -454,10 +505,10 @@ class C07(Check):
             except Exception as e:
                 ctx.count("sim_error:" + type(e).__name__)
                 continue
-            if res.error_code is not None and res.error_code != 0:
-                ctx.count("sim_not_converged")
-                continue
-            ctx.count("sim_ok")
+            if res.error_code is not None:
+                ctx.count("sim_not_converged")  # the steps reported before the failure are still judged
+            else:
+                ctx.count("sim_ok")
             for nm, cf in conf.items():
                 (pmin0, pnom0, e0), D0, el = cf[0], cf[1], cf[2]
                 change = cf[3] if len(cf) > 3 else None
@@ -572,12 +623,24 @@ class C07(Check):
         # (b) parameter changed by a control while the junction is connected
         changes = [("pressure_exponent", 1.0), ("pressure_exponent", 0.3), ("minimum_pressure", 4.0), ("required_pressure", 26.0),
                    ("required_pressure", 9.0)]
+        # ... and changes after which the (unchanged) pressure lies INSIDE the new upper / lower smoothing band, where the
+        # smoothing cubics (not only Pmin / Preq themselves) must have been recomputed
+        changes += [("required_pressure", "p+"), ("minimum_pressure", "p-")]
         gl = (1.0, 18.0, 0.5)
         for attr, val in changes:
             for own in ((None, None, None), (0.0, 15.0, 0.7)):
                 pmin, pnom, e = eff(own, gl)
                 tp = pmin + 0.45 * (pnom - pmin)
                 juncs = [{"own": own, "D": 0.02, "elev": H - tp}, {"own": (None, None, None), "D": 0.01, "elev": H - 6.0}]
+                if isinstance(val, str):
+                    try:
+                        r0 = wntr.sim.WNTRSimulator(self._star(wntr, gl, juncs, H)).run_sim()
+                    except Exception as ex:
+                        ctx.count("directed_sim_error:" + type(ex).__name__)
+                        continue
+                    p0 = float(r0.node["pressure"].loc[0, "J0"])
+                    val = p0 + 0.02 if val == "p+" else p0 - 0.02
+                    ctx.count("directed_sim_param_control_into_band:" + attr)
                 wn = self._star(wntr, gl, juncs, H, duration=3 * 3600)
                 wn.add_control("chg", Control(SimTimeCondition(wn, "=", 3600), ControlAction(wn.get_node("J0"), attr, val)))
                 try:
@@ -622,6 +685,10 @@ class C07(Check):
         f, b = self._run_cases(ctx, wntr, narrow_cases + [default_case] + self._gen_cases(ctx, 6 if ctx.quick else 40, narrow=True), 6)
         failures += f
         broken += b
+        # a junction's parameter changed through the ModelUpdater (what a control does mid-run)
+        f, b = self._run_cases(ctx, wntr, self._change_cases(ctx, 12 if ctx.quick else 120), 6)
+        failures += f
+        broken += b
         # parameter sets outside the statement: refusal correspondence only
         f, b = self._run_cases(ctx, wntr, self._malformed_cases(ctx, 8 if ctx.quick else 60), 2)
         failures += f
@@ -640,8 +707,12 @@ class C07(Check):
                 cases.append({"glob": (0.0, 10.0, 0.5), "specs": [{"own": (pmin, pnom, e), "D": 0.02, "elev": 5.0}]})
         cases += self._gen_cases(ctx, 150)
         f, b = self._run_cases(ctx, wntr, cases, 40)
+        f2, b = self._run_cases(ctx, wntr, self._gen_cases(ctx, 40, narrow=True), 20)
+        f += f2
+        f2, b = self._run_cases(ctx, wntr, self._change_cases(ctx, 80), 20)
+        f += f2
         f.sort(key=lambda x: (len(json.dumps(x.replay, default=str))))
-        return f
+        return f + self._directed_sims(ctx, wntr) + self._simulate(ctx, wntr, 40)
 
     def replay(self, ctx, path):
         r = json.load(open(path if os.path.isabs(path) else os.path.join(vlib.VERIF, path)))
@@ -658,6 +729,10 @@ class C07(Check):
         constants.pdd_constants(ns)
         self.delta, self.slope = ns.pdd_smoothing_delta, ns.pdd_slope
         case = {"glob": tuple(rp["glob"]), "specs": [{"own": tuple(rp["own"]), "D": rp["D"], "elev": rp["elev"]}]}
+        if rp.get("change"):
+            # the recorded own values are those AFTER the change; start from the global ones and re-apply it
+            case["specs"][0]["own"] = (None, None, None)
+            case["change"] = dict(rp["change"], node=0)
         fs, bs = self._run_cases(ctx, wntr, [case], 40, narrow=(rp.get("cls") == "narrow"))
         hit = [f for f in fs if f.key == r.get("key")]
         print("replay: %s" % ("REPRODUCED " + hit[0].what if hit else "not reproduced on the current tree"))
